@@ -1,2 +1,102 @@
-(* renderer / glue streams of the model (filled in as the model grows) *)
-let run_case (a : string array) : string = "MODEL-UNSUPPORTED " ^ a.(0)
+(* renderer / glue streams of the model: svg (Model/Svg.v), wasm and wasmqr (Model/Wasm.v).
+   Hand-written glue (trusted): parsing of the case line, int <-> N/Z/nat conversion, hex printing. *)
+open BinNums
+open Datatypes
+module L = Stdlib.List
+module Str = Stdlib.String
+
+exception Unsupported
+
+let rec pos_of_int n = if n = 1 then Coq_xH else if n land 1 = 0 then Coq_xO (pos_of_int (n lsr 1)) else Coq_xI (pos_of_int (n lsr 1))
+let n_of_int n = if n = 0 then N0 else Npos (pos_of_int n)
+let z_of_int n = if n = 0 then Z0 else if n > 0 then Zpos (pos_of_int n) else Zneg (pos_of_int (- n))
+let rec int_of_pos = function Coq_xH -> 1 | Coq_xO p -> 2 * int_of_pos p | Coq_xI p -> 2 * int_of_pos p + 1
+let int_of_n = function N0 -> 0 | Npos p -> int_of_pos p
+let nat_of_int n = let rec go acc k = if k = 0 then acc else go (S acc) (k - 1) in go O n
+let int_of_nat n = let rec go acc = function O -> acc | S m -> go (acc + 1) m in go 0 n
+(* decimal strings of any size (usize margins) *)
+let n_of_string s =
+  if s = "" then raise Unsupported;
+  let ten = n_of_int 10 in
+  let acc = ref N0 in
+  Str.iter (fun c -> if c < '0' || c > '9' then raise Unsupported;
+             acc := BinNat.N.add (BinNat.N.mul !acc ten) (n_of_int (Char.code c - 48))) s; !acc
+
+let unhex s = if s = "-" then [] else
+  L.init (Str.length s / 2) (fun i -> n_of_int (int_of_string ("0x" ^ Str.sub s (2 * i) 2)))
+let hex l = if l = [] then "-" else begin
+  let b = Buffer.create 65536 in
+  let d = "0123456789abcdef" in
+  L.iter (fun x -> let v = int_of_n x in Buffer.add_char b d.[(v lsr 4) land 15]; Buffer.add_char b d.[v land 15]) l;
+  Buffer.contents b end
+
+let split_once c s =
+  match Str.index_opt s c with
+  | Some i -> (Str.sub s 0 i, Str.sub s (i + 1) (Str.length s - i - 1))
+  | None -> failwith "split_once"
+
+(* matrix_from of the harness: QRCode::default(size) with the given module bytes written linearly; missing bytes
+   are Module::data(LIGHT) = 0 *)
+let cell_of_byte x = (n_of_int (x lsr 1), x land 1 = 1)
+let matrix_from n (bytes : coq_N list) : Types.qmat =
+  let arr = Array.of_list (L.map int_of_n bytes) in
+  let get i = if i < Array.length arr then arr.(i) else 0 in
+  L.init n (fun r -> L.init n (fun c -> cell_of_byte (get (r * n + c))))
+
+(* an f64 literal with at most two decimals, as a count of hundredths; anything else is outside the model *)
+let hundredths_of_string (s : string) : coq_Z =
+  let neg, body =
+    if Str.length s > 0 && s.[0] = '-' then (true, Str.sub s 1 (Str.length s - 1))
+    else if Str.length s > 0 && s.[0] = '+' then (false, Str.sub s 1 (Str.length s - 1))
+    else (false, s) in
+  let ip, fp = match Str.index_opt body '.' with
+    | Some i -> (Str.sub body 0 i, Str.sub body (i + 1) (Str.length body - i - 1))
+    | None -> (body, "") in
+  let digits t = Str.iter (fun c -> if c < '0' || c > '9' then raise Unsupported) t in
+  digits ip; digits fp;
+  if ip = "" && fp = "" then raise Unsupported;
+  (* drop trailing zeros of the fraction *)
+  let fp = let k = ref (Str.length fp) in while !k > 0 && fp.[!k - 1] = '0' do decr k done; Str.sub fp 0 !k in
+  if Str.length fp > 2 || Str.length ip > 15 then raise Unsupported;
+  let fp = fp ^ Str.make (2 - Str.length fp) '0' in
+  let v = (if ip = "" then 0 else int_of_string ip) * 100 + int_of_string fp in
+  (* negative zero is not in the model; byte agreement with the f64 code is only claimed for multiples of 0.25 *)
+  if neg && v = 0 then raise Unsupported;
+  if v mod 25 <> 0 then raise Unsupported;
+  z_of_int (if neg then - v else v)
+
+let rgba (s : string) : Svg.rgba =
+  match L.map int_of_n (unhex s) with
+  | r :: g :: b :: a :: _ -> { Svg.c_r = n_of_int r; Svg.c_g = n_of_int g; Svg.c_b = n_of_int b; Svg.c_a = n_of_int a }
+  | _ -> failwith "rgba"
+
+let svg_configure (c : Svg.cfg) (o : string) : Svg.cfg =
+  let (k, v) = split_once '=' o in
+  match k with
+  | "margin" -> Svg.set_margin c (n_of_string v)
+  | "bg" -> Svg.set_background_color c (rgba v)
+  | "fg" -> Svg.set_module_color c (rgba v)
+  | "shape" -> Svg.add_shape c (Svg.shape_of_idx (nat_of_int (int_of_string v)))
+  | "shapec" -> let (s, col) = split_once ':' v in
+    Svg.add_shape_color c (Svg.shape_of_idx (nat_of_int (int_of_string s))) (rgba col)
+  | "image" -> Svg.set_image c (unhex v)
+  | "ibg" -> Svg.set_image_background_color c (rgba v)
+  | "ishape" -> Svg.set_image_background_shape c (Svg.ishape_of_idx (nat_of_int (int_of_string v)))
+  | "isize" -> Svg.set_image_size c (hundredths_of_string v)
+  | "igap" -> Svg.set_image_gap c (hundredths_of_string v)
+  | "ipos" -> let (x, y) = split_once ',' v in Svg.set_image_position c (hundredths_of_string x) (hundredths_of_string y)
+  | "fitw" | "fith" -> c
+  | _ -> failwith ("unknown option " ^ k)
+
+let run_case (a : string array) : string =
+  try
+    match a.(0) with
+    | "svg" ->
+      let n = int_of_string a.(1) in
+      let m = matrix_from n (unhex a.(2)) in
+      let c = ref Svg.default in
+      for i = 3 to Array.length a - 1 do c := svg_configure !c a.(i) done;
+      if Svg.to_str_panics !c (nat_of_int n) then "PANIC"
+      else "OK " ^ hex (Svg.to_str !c (nat_of_int n) m) ^ " 1"
+    | _ -> "MODEL-UNSUPPORTED " ^ a.(0)
+  with Unsupported -> "MODEL-UNSUPPORTED " ^ a.(0)
